@@ -17,9 +17,9 @@
    setFields succeeds iff d <= depthLimit = 10 iff r >= 2; r = 1 is reached only by a singular Any
    field of a depth-10 message (setFieldValue calls genAny directly, without the depth test).
 
-   [variant] lists the five places where the code, as it stands, misses the property (DESIGN §10
-   D12 and the C18 findings); [current] is the code as it is, each flag describes the obvious
-   one-line repair, so that the model follows a `fix:` commit by flipping the flag.
+   [variant] lists the places where the code, as first read, missed the property (DESIGN §10 D12 and
+   the C18 findings), one flag per `fix:` commit of /repo; [current] is the code before them,
+   [repaired] after them; [code_variant] is the one the correspondence check runs.
    Definitions only. *)
 From CP Require Export Schema Codec Decode WF.
 Local Open Scope N_scope.
@@ -44,18 +44,20 @@ Record gopts := { o_no_empty : bool;               (* NoEmptyLists *)
                   o_hints : list (option nat);     (* InterfaceHints: interface index -> message index *)
                   o_fmap : kind -> list Z -> fm_spec }.
 
-Record variant := { v_fieldmask_stored : bool;     (* genFieldMask stores the list it built *)
-                    v_enum_by_number : bool;       (* enum value = number of the drawn index *)
-                    v_any_container : bool;        (* setFields returns genAny's result *)
-                    v_any_nil_field : bool;        (* genAny tolerates field == nil *)
-                    v_list_truncate : bool }.      (* a failed list element is removed: Truncate(Len()-1),
-                                                      not Truncate(i) with the loop index *)
+Record variant := { v_fieldmask_stored : bool;     (* genFieldMask stores the list it built          (fcde2e4) *)
+                    v_enum_by_number : bool;       (* enum value = number of the drawn index          (1730a5e) *)
+                    v_any_container : bool;        (* setFields returns genAny's result               (a592b3e) *)
+                    v_any_nil_field : bool;        (* genAny tolerates field == nil                   (3227b11) *)
+                    v_list_truncate : bool;        (* a failed list element is removed: Truncate(Len()-1),
+                                                      not Truncate(i) with the loop index             (0c6fe98) *)
+                    v_root_draw : bool }.          (* MessageGenerator draws a bool before setFields  (402bd9f) *)
+(* the code before the `fix:` commits named above (kept: the refutations are regression witnesses) *)
 Definition current : variant :=
   {| v_fieldmask_stored := false; v_enum_by_number := false; v_any_container := false; v_any_nil_field := false;
-     v_list_truncate := false |}.
+     v_list_truncate := false; v_root_draw := false |}.
 Definition repaired : variant :=
   {| v_fieldmask_stored := true; v_enum_by_number := true; v_any_container := true; v_any_nil_field := true;
-     v_list_truncate := true |}.
+     v_list_truncate := true; v_root_draw := true |}.
 
 (* which field descriptor genAny was handed: none (MessageGenerator, Any payload) or a field with
    or without accepts_interface *)
@@ -474,8 +476,8 @@ Fixpoint ann_ok_aux (sch : schema) (ann : annots) : bool :=
   end.
 Definition ann_ok (sch : schema) (ann : annots) : bool := ann_ok_aux sch ann.
 
-(* ---- the model of the code as it stands in /repo (flip a flag when its `fix:` commit lands) ---- *)
-Definition code_variant : variant := current.
+(* ---- the model of the code as it stands in /repo (all six `fix:` commits are in) ---------------- *)
+Definition code_variant : variant := repaired.
 
 (* ---- the validity properties, as families of local predicates for [deep] -------------------- *)
 Definition true_scalar : kind -> list Z -> val -> bool := fun _ _ _ => true.
@@ -580,6 +582,15 @@ Definition no_nil_elem_preds : preds :=
          | Member _, VSome p => is_msgv p
          | _, _ => true
          end
+       end;
+     p_msg := true_msg |}.
+(* no Any below the root (what empty AnyTypeURLs gives) *)
+Definition no_any_field_preds (ann : annots) : preds :=
+  {| p_scalar := true_scalar;
+     p_slot := fun _ _ f _ s =>
+       match f_ty f with
+       | TMsg tm => if is_any ann tm then match s with VNil | VList [] | VMap [] => true | _ => false end else true
+       | TScalar _ => true
        end;
      p_msg := true_msg |}.
 (* a FieldMapper that always answers is always obeyed *)
@@ -886,8 +897,9 @@ Section Gen.
         end
     end.
 
-  (* MessageGenerator: msgType.New(); options.setFields(t, nil, msg, 0); result ignored *)
+  (* MessageGenerator: msgType.New(); [a bool draw]; options.setFields(t, nil, msg, 0); result ignored *)
   Definition gen (mid : nat) (tp : tape) : outcome val :=
+    let tp := if v_root_draw vr then snd (draw_bool tp) else tp in     (* rapid.Bool().Draw(t, "message") *)
     match set_fields top_fuel 0%nat INoField mid (fresh sch mid) tp with
     | Ok (Some v, _) => Ok v
     | Ok (None, _) => Ok (fresh sch mid)
